@@ -19,4 +19,5 @@ MUTANTS = [
     M('C19', 'screen: rectangle overflow check dropped for y', SC, "        if x + rect_width > self.width or y + rect_height > self.height:", "        if x + rect_width > self.width:", 'C19.SCREEN-REJECT'),
     M('C19', 'screen: raises a builtin', SC, "            raise IODeviceException(f'screen bpp must be 4 or 8, got {bpp}')", "            raise ValueError(f'screen bpp must be 4 or 8, got {bpp}')", 'C19.SCREEN-REJECT'),
     M('C19', 'device data-bit offset off by one', DM, "        return self.memory_width.bit_length()\n", "        return self.memory_width.bit_length() - 1\n", 'C19.DBIT'),
+    M('C19', 'EQ reader adapter names its mask', 'flipjump/interpreter/io_devices/device_memory.py', "        return self._reader.memory.get(word_address & ((1 << self.memory_width) - 1), 0)", "        word_mask = (1 << self.memory_width) - 1\n        return self._reader.memory.get(word_address & word_mask, 0)", None),
 ]
